@@ -123,6 +123,7 @@ def run(tier, seed, out, drv, facts):
                         out.violation(f"reject-binds:{name}", f"a rejected tree changed the bindings from {progcheck.last_bindings(gb)} to {progcheck.last_bindings(got)}", {"program": prog})
     arraylike_node_cases(out)
     composite_leaf_cases(out, drv, facts, rng)
+    nested_in_union_cases(out, drv, facts, rng)
     overwrite_then_reject_cases(out, drv, facts, rng)
     pep604_cases(out)
     union_history_cases(out, drv, facts, rng)
@@ -147,6 +148,30 @@ def composite_leaf_cases(out, drv, facts, rng):
             prog = [{"op": "ctx", "body": [{"op": "check", "l": lt, "x": tree}, P], "exit": "ret"}]
             got, want = progcheck.compare_program(out, drv, facts, prog, "composite-leaf", rng=rng, as_violation=as_violation)
             out.case(("composite-leaf", json.dumps(tree, sort_keys=True), json.dumps(lt)[:40]), True, sample={"tree": tree, "verdict": progcheck.verdicts(got)[-1:]})
+
+
+def nested_in_union_cases(out, drv, facts, rng):
+    """a structure-less PyTree as ONE MEMBER of a union leaf type (`PyTree[Union[PyTree[int], str]]`,
+    `PyTree[Optional[PyTree[arrays]]]`): while the outer tree is flattened the inner PyTree is asked at every node
+    whether that node is a leaf — a container that is not wholly a tree of the inner leaf type is a node, to be descended"""
+    a, v = gen_prog.arr_type, gen_prog.arr_val
+    tup = lambda *xs: {"t": "tuple", "xs": list(xs)}  # noqa: E731
+    lst = lambda *xs: {"t": "list", "xs": list(xs)}  # noqa: E731
+    inner_int = {"t": "pytree", "l": INT, "s": None}
+    inner_arr = {"t": "pytree", "l": a("n"), "s": None}
+    cases = [
+        ({"t": "union", "ts": [inner_int, STR]}, [lst(ival(1), sval("a")), {"t": "dict", "keys": ["k", "s"], "vals": [tup(ival(1), ival(2)), lst(sval("a"), sval("b"))]},
+                                                  lst(ival(1), tup(ival(2), sval("b"))), tup(ival(1), ival(2)), lst(ival(1), v([2]))]),
+        ({"t": "union", "ts": [STR, inner_int]}, [lst(ival(1), sval("a")), tup(tup(ival(1), sval("x")), sval("b"))]),
+        ({"t": "union", "ts": [inner_arr, INT]}, [{"t": "dict", "keys": ["params", "step"], "vals": [{"t": "dict", "keys": ["b", "w"], "vals": [v([3]), v([3])]}, ival(7)]},
+                                                  lst(v([3]), ival(1), tup(v([3]), ival(2))), lst(v([3]), tup(v([4]), ival(2)))]),
+    ]
+    for lt, trees in cases:
+        for tree in trees:
+            outer = {"t": "pytree", "l": lt, "s": None}
+            prog = [{"op": "ctx", "body": [{"op": "check", "l": outer, "x": tree}, P], "exit": "ret"}]
+            got, want = progcheck.compare_program(out, drv, facts, prog, "nested-in-union", rng=rng, as_violation=as_violation)
+            out.case(("nested-in-union", json.dumps(lt)[:60], json.dumps(tree, sort_keys=True)[:80]), True, sample={"leaf_type": lt, "tree": tree, "verdict": progcheck.verdicts(got)[-1:]})
 
 
 def overwrite_then_reject_cases(out, drv, facts, rng):
